@@ -21,6 +21,7 @@ import (
 	"sync/atomic"
 	"time"
 
+	"github.com/coder/websocket"
 	"github.com/high-moctane/mocrelay"
 	mocprom "github.com/high-moctane/mocrelay/middleware/prometheus"
 	"github.com/prometheus/client_golang/prometheus"
@@ -38,7 +39,8 @@ type c19Step struct {
 	Op  string  `json:"op"` // start | end | c | s
 	S   int     `json:"s"`
 	M   *c19Msg `json:"m,omitempty"`
-	How string  `json:"how,omitempty"` // end: quit (inner handler returns) | cancel (context) | close (recv channel closed)
+	How string  `json:"how,omitempty"` // end: quit (inner handler returns) | cancel (context) | close (recv channel closed / connection dropped)
+	Hdr string  `json:"hdr,omitempty"` // start, transport ws: the X-Request-Id header of the upgrade request ("" = none)
 }
 
 type c19KV struct {
@@ -60,6 +62,7 @@ type c19View struct {
 }
 
 type c19Case struct {
+	Via    string      `json:"via,omitempty"` // transport: "" (Handler API) | "ws" (Relay.ServeHTTP over a loopback WebSocket)
 	Groups [][]c19Step `json:"groups"`
 	Obs    []c19Snap   `json:"obs"`
 	Inner  []c19View   `json:"inner"`
@@ -165,6 +168,8 @@ type c19Sess struct {
 	started  chan struct{}
 	innerGot chan mocrelay.ClientMsg // inner handler -> harness
 	done     chan error
+	conn     *websocket.Conn // transport ws: the client's end
+	wsIn     chan c19Msg     // transport ws: what the client read, in order
 }
 
 type c19SessKey struct{}
@@ -257,7 +262,8 @@ func c19Gather(reg *prometheus.Registry) (c19Snap, error) {
 // between its start and its end; the sessions of a group are pairwise
 // distinct), numbers the messages, and drops empty groups.  Replayed and
 // shrunk inputs go through it, so every input is a well-formed history.
-func c19Normalize(groups [][]c19Step) [][]c19Step {
+func c19Normalize(groups [][]c19Step, via string) [][]c19Step {
+	ws := via == c19WS
 	live := map[int]bool{}
 	uid := 0
 	var out [][]c19Step
@@ -275,18 +281,21 @@ func c19Normalize(groups [][]c19Step) [][]c19Step {
 				}
 				live[st.S] = true
 				st.M, st.How = nil, ""
+				if !ws {
+					st.Hdr = ""
+				}
 			case "dead":
 				// a session whose context is already cancelled when ServeNostr is called
-				if live[st.S] {
+				if live[st.S] || ws {
 					continue
 				}
-				st.M, st.How = nil, ""
+				st.M, st.How, st.Hdr = nil, "", ""
 			case "end":
 				if !live[st.S] {
 					continue
 				}
 				delete(live, st.S)
-				st.M = nil
+				st.M, st.Hdr = nil, ""
 				if st.How != "cancel" && st.How != "close" {
 					st.How = "quit"
 				}
@@ -294,10 +303,13 @@ func c19Normalize(groups [][]c19Step) [][]c19Step {
 				if !live[st.S] || st.M == nil {
 					continue
 				}
+				if ws && ((st.Op == "c" && !c19WSAllowedClient(st.M.T)) || (st.Op == "s" && !c19WSAllowedServer(st.M.T))) {
+					continue
+				}
 				m := *st.M
 				m.UID = uid
 				uid++
-				st.M, st.How = &m, ""
+				st.M, st.How, st.Hdr = &m, "", ""
 			default:
 				continue
 			}
@@ -343,12 +355,20 @@ func c19Run(c *c19Case) {
 }
 
 func c19RunT(c *c19Case, limit time.Duration) {
-	c.Groups = c19Normalize(c.Groups)
+	if c.Via != c19WS {
+		c.Via = ""
+	}
+	c.Groups = c19Normalize(c.Groups, c.Via)
 	c.Obs, c.Inner, c.Outer, c.Notes = []c19Snap{}, []c19View{}, []c19View{}, nil
 	c.Clean = true
 
 	reg := prometheus.NewRegistry()
 	h := mocrelay.Middleware(mocprom.NewPrometheusMiddleware(reg))(mocrelay.HandlerFunc(c19Inner))
+	var host *c19WSHost
+	if c.Via == c19WS {
+		host = c19NewWSHost(h)
+		defer host.close()
+	}
 
 	sess := map[int]*c19Sess{}
 	var mu sync.Mutex
@@ -375,6 +395,32 @@ func c19RunT(c *c19Case, limit time.Duration) {
 		tmo := time.After(limit)
 		switch st.Op {
 		case "start":
+			if host != nil {
+				s := &c19Sess{
+					cancel:   func() {},
+					cmd:      make(chan mocrelay.ServerMsg),
+					quit:     make(chan struct{}),
+					started:  make(chan struct{}),
+					innerGot: make(chan mocrelay.ClientMsg, 64),
+					done:     make(chan error, 1),
+				}
+				mu.Lock()
+				sess[st.S] = s
+				seen[st.S] = true
+				mu.Unlock()
+				if err := host.start(st.S, s, st.Hdr, limit); err != nil {
+					return err
+				}
+				select {
+				case <-s.started:
+				case e := <-s.done:
+					s.done <- e
+					return fmt.Errorf("session %d ended before its handler started: %v", st.S, e)
+				case <-tmo:
+					return errC19Timeout
+				}
+				return nil
+			}
 			ctx, cancel := context.WithCancel(context.Background())
 			s := &c19Sess{
 				cancel:   cancel,
@@ -446,7 +492,11 @@ func c19RunT(c *c19Case, limit time.Duration) {
 			case "cancel":
 				s.cancel()
 			case "close":
-				close(s.recv)
+				if host != nil {
+					s.conn.CloseNow() // the client drops the connection
+				} else {
+					close(s.recv)
+				}
 			default:
 				close(s.quit)
 			}
@@ -456,7 +506,37 @@ func c19RunT(c *c19Case, limit time.Duration) {
 				return errC19Timeout
 			}
 			s.cancel()
+			if host != nil {
+				s.conn.CloseNow()
+			}
 		case "c":
+			if host != nil {
+				mu.Lock()
+				s := sess[st.S]
+				mu.Unlock()
+				wctx, wcancel := context.WithTimeout(context.Background(), limit)
+				err := s.conn.Write(wctx, websocket.MessageText, c19WireClient(st.M))
+				wcancel()
+				if err != nil {
+					return fmt.Errorf("session %d: write: %v", st.S, err)
+				}
+				select {
+				case got := <-s.innerGot:
+					v := c19SeenClient(got, -1)
+					if c19SameContent(v, st.M) {
+						v.UID = st.M.UID
+					}
+					mu.Lock()
+					inner[st.S] = append(inner[st.S], v)
+					mu.Unlock()
+				case e := <-s.done:
+					s.done <- e
+					return fmt.Errorf("session %d ended early: %v", st.S, e)
+				case <-tmo:
+					return errC19Timeout
+				}
+				return nil
+			}
 			mu.Lock()
 			s := sess[st.S]
 			m := c19Client(st.M)
@@ -495,6 +575,23 @@ func c19RunT(c *c19Case, limit time.Duration) {
 				return fmt.Errorf("session %d ended early: %v", st.S, e)
 			case <-tmo:
 				return errC19Timeout
+			}
+			if host != nil {
+				select {
+				case v := <-s.wsIn:
+					if c19SameContent(v, st.M) {
+						v.UID = st.M.UID
+					}
+					mu.Lock()
+					outer[st.S] = append(outer[st.S], v)
+					mu.Unlock()
+				case e := <-s.done:
+					s.done <- e
+					return fmt.Errorf("session %d ended early: %v", st.S, e)
+				case <-tmo:
+					return errC19Timeout
+				}
+				return nil
 			}
 			select {
 			case got := <-s.send:
@@ -547,8 +644,10 @@ func c19RunT(c *c19Case, limit time.Duration) {
 			default:
 			}
 			select {
-			case got := <-s.send:
+			case got := <-s.send: // (nil channel for transport ws)
 				outer[id] = append(outer[id], c19SeenServer(got, lookup(got)))
+			case v := <-s.wsIn: // (nil channel for the direct transport)
+				outer[id] = append(outer[id], v)
 			default:
 			}
 		}
@@ -565,6 +664,9 @@ func c19RunT(c *c19Case, limit time.Duration) {
 		case <-s.done:
 		case <-time.After(limit):
 			note("teardown: a session did not end")
+		}
+		if s.conn != nil {
+			s.conn.CloseNow()
 		}
 	}
 	ids := make([]int, 0, len(seen))
@@ -586,10 +688,20 @@ func c19RunT(c *c19Case, limit time.Duration) {
 }
 
 var c19Subs = []string{"a", "b", "c"}
-var c19Kinds = []int64{0, 1, 7, 30023, -1}
+// Event.Kind is an int64 and the property quantifies over all histories: beside kinds of the
+// NIP-01 range (0..65535, with both ends) the universe holds kinds outside of it that agree
+// with a smaller member modulo 2^16 or 2^32 (what a narrower integer would keep of them), and
+// the ends of the int64 range.  The first five are drawn three times as often.
+var c19Kinds = []int64{0, 1, 7, 30023, -1, 0, 1, 7, 30023, -1, 0, 1, 7, 30023, -1,
+	65535, 65536, 65537, 131073, -65535, 1 << 32, 1<<32 + 1, 1<<63 - 1, -1 << 63}
 
-func c19Gen(r *common.Rand, thorough bool) [][]c19Step {
+// ws: a history for the transport "ws" (c19ws.go): 2..5 sessions, every start carries an
+// X-Request-Id header value from c19Hdrs, only messages the wire can carry.
+func c19Gen(r *common.Rand, thorough bool, ws bool) [][]c19Step {
 	maxSess := 1 + r.Intn(8)
+	if ws {
+		maxSess = 2 + r.Intn(4)
+	}
 	n := 4 + r.Intn(36)
 	if thorough {
 		n = 4 + r.Intn(70)
@@ -600,6 +712,17 @@ func c19Gen(r *common.Rand, thorough bool) [][]c19Step {
 	pickMsg := func(client bool) *c19Msg {
 		m := &c19Msg{}
 		p := r.Intn(100)
+		if ws && client {
+			switch {
+			case p < 55:
+				m.T, m.Sub = "REQ", common.Pick(r, c19Subs)
+			case p < 88:
+				m.T, m.Sub = "CLOSE", common.Pick(r, c19Subs)
+			default:
+				m.T, m.Sub = "COUNT", common.Pick(r, c19Subs)
+			}
+			return m
+		}
 		if client {
 			switch {
 			case p < 36:
@@ -633,6 +756,9 @@ func c19Gen(r *common.Rand, thorough bool) [][]c19Step {
 				m.T = "AUTH"
 			default:
 				m.T = "OTHER"
+				if ws {
+					m.T = "NOTICE"
+				}
 			}
 		}
 		return m
@@ -645,18 +771,21 @@ func c19Gen(r *common.Rand, thorough bool) [][]c19Step {
 			}
 		}
 		p := r.Intn(100)
-		if r.Chance(3) && next < maxSess {
+		if !ws && r.Chance(3) && next < maxSess {
 			s := next
 			next++
 			return c19Step{Op: "dead", S: s}, true
 		}
-		if len(live) == 0 || (p < 12 && next < maxSess) {
+		if len(live) == 0 || (p < 12 && next < maxSess) || (ws && len(live) < 2 && next < maxSess && r.Chance(50)) {
 			if next >= maxSess {
 				return c19Step{}, false
 			}
 			s := next
 			next++
 			live = append(live, s)
+			if ws {
+				return c19Step{Op: "start", S: s, Hdr: common.Pick(r, c19Hdrs)}, true
+			}
 			return c19Step{Op: "start", S: s}, true
 		}
 		if len(cand) == 0 {
@@ -711,7 +840,12 @@ func c19Gen(r *common.Rand, thorough bool) [][]c19Step {
 
 func init() {
 	subcmds["c19"] = func(seed uint64, n int, out *common.Out, replay string) {
-		// cases are independent (own registry, own sessions): run them on a few workers, emit in order
+		if c19WorkerMode() {
+			c19Worker()
+			return
+		}
+		// cases are independent (own registry, own sessions): run them on a few workers, emit in order;
+		// the cases of the transport "ws" are run one at a time by worker processes (c19ws.go)
 		var results []c19Case
 		var gen func(i int) c19Case
 		if replay != "" {
@@ -726,18 +860,37 @@ func init() {
 			}
 		} else {
 			root := common.NewRand(seed)
-			gen = func(i int) c19Case { return c19Case{Groups: c19Gen(root.Fork(uint64(i)), n >= 10000)} }
+			direct := n
+			// one tenth more histories through Relay.ServeHTTP
+			wsRoot := root.Fork(1 << 42)
+			n = direct + direct/10
+			gen = func(i int) c19Case {
+				if i >= direct {
+					return c19Case{Via: c19WS, Groups: c19Gen(wsRoot.Fork(uint64(i-direct)), direct >= 10000, true)}
+				}
+				return c19Case{Groups: c19Gen(root.Fork(uint64(i)), direct >= 10000, false)}
+			}
 		}
 		results = make([]c19Case, n)
 		const workers = 8
 		var wg sync.WaitGroup
 		jobs := make(chan int)
+		var wsIdx []int
+		var wsCases []c19Case
+		var wsMu sync.Mutex
 		for w := 0; w < workers; w++ {
 			wg.Add(1)
 			go func() {
 				defer wg.Done()
 				for i := range jobs {
 					c := gen(i)
+					if c.Via == c19WS {
+						wsMu.Lock()
+						wsIdx = append(wsIdx, i)
+						wsCases = append(wsCases, c)
+						wsMu.Unlock()
+						continue
+					}
 					before := raceBytes()
 					c19Run(&c)
 					concurrent := false
@@ -762,6 +915,25 @@ func init() {
 		}
 		close(jobs)
 		wg.Wait()
+		if len(wsCases) > 0 {
+			// two worker processes, each one case at a time
+			half := len(wsCases) / 2
+			parts := [][2]int{{0, half}, {half, len(wsCases)}}
+			var wg2 sync.WaitGroup
+			for _, pr := range parts {
+				if pr[0] == pr[1] {
+					continue
+				}
+				wg2.Add(1)
+				go func(a, b int) {
+					defer wg2.Done()
+					for k, c := range c19RunIsolated(wsCases[a:b]) {
+						results[wsIdx[a+k]] = c
+					}
+				}(pr[0], pr[1])
+			}
+			wg2.Wait()
+		}
 		for i := range results {
 			out.Emit(results[i])
 		}
